@@ -9,22 +9,28 @@ theorem mem_start (cap : Nat) (K : List Key) (hK : K.length ≤ cap) :
   ⟨⟨⟨by simp [Mem.init, Store.keys, init], by simp [Mem.init, Store.keys, init]⟩, hK⟩,
     fun k => by simp [memOps, memOwner, init, Mem.init], fun _ => rfl⟩
 
+/-- the same with several backends (`n` keys each) in any state of health -/
+theorem mem_start_routed (cap : Nat) (K : List Key) (hK : K.length ≤ cap) (n : Nat) (hl : Nat → Health) :
+    Start memOps (MemOk K) { initRouted (Mem.init cap) n with health := hl } :=
+  ⟨⟨⟨by simp [Mem.init, Store.keys, init, initRouted], by simp [Mem.init, Store.keys, init, initRouted]⟩, hK⟩,
+    fun k => by simp [memOps, memOwner, init, initRouted, Mem.init], fun _ => rfl⟩
+
 /-- two tasks on key 0 (ttl 1 s), the second waits; the first leaves in time (by an exception); the
 second gets in; a foreign unlock in between -/
 def trGood : List Act :=
-  [.enter 0 0 (some 8) true, .attempt 0, .enter 1 0 (some 8) true, .attempt 1, .tick 4,
+  [.enter 0 0 0 (some 8) true, .attempt 0, .enter 1 1 0 (some 8) true, .attempt 1, .tick 4,
    .foreignUnlock 0 7, .leave 0 .exc, .attempt 1, .probe 0, .leave 1 .normal, .probe 0]
 
 /-- an overstayer: task 0 holds key 0 past its ttl, task 1 acquires at the deadline, task 0 is
 cancelled late, task 2 (wait=False) is refused -/
 def trOverstay : List Act :=
-  [.enter 0 0 (some 8) true, .attempt 0, .enter 1 0 (some 8) true, .attempt 1, .tick 8, .attempt 1,
-   .leave 0 .cancel, .enter 2 0 (some 8) false, .attempt 2, .probe 0]
+  [.enter 0 0 0 (some 8) true, .attempt 0, .enter 1 1 0 (some 8) true, .attempt 1, .tick 8, .attempt 1,
+   .leave 0 .cancel, .enter 2 2 0 (some 8) false, .attempt 2, .probe 0]
 
 /-- A overstays, B acquires, A leaves late, C tries -/
 def trThree : List Act :=
-  [.enter 0 0 (some 8) true, .attempt 0, .enter 1 0 (some 16) true, .tick 8, .attempt 1, .tick 2,
-   .leave 0 .normal, .enter 2 0 (some 16) true, .attempt 2]
+  [.enter 0 0 0 (some 8) true, .attempt 0, .enter 1 1 0 (some 16) true, .tick 8, .attempt 1, .tick 2,
+   .leave 0 .normal, .enter 2 2 0 (some 16) true, .attempt 2]
 
 /-- the defect D7 as a backend: `unlock` deletes whatever is stored, ignoring the presented value -/
 def tokenBlindOps : LockOps TtlMap :=
@@ -34,5 +40,84 @@ def tokenBlindOps : LockOps TtlMap :=
 def rawMembershipOps : LockOps TtlMap :=
   { ttlOps with
     setLock := fun t k v ttl => if (t.m k).isSome then (t, false) else (t.write k v ttl, true) }
+
+/-! ### transactions -/
+
+/-- threads 0 and 1 each open a FAST transaction, write an application key into their overlay and then
+contend for key 0 (thread 1 does not wait); thread 2, in a LOCKED transaction, waits, and gets in after
+thread 0 left and committed -/
+def trTx : List Act :=
+  [.txBegin 0 .fast, .txSet 0 50 1, .txBegin 1 .fast, .txBegin 2 .locked,
+   .enter 0 0 0 (some 8) true, .attempt 0, .enter 1 1 0 (some 8) false, .attempt 1,
+   .enter 2 2 0 (some 8) true, .attempt 2, .leave 0 .normal, .txEnd 0 true, .attempt 2, .txEnd 1 false]
+
+/-- The seeded defect as a semantics (`TransactionBackend.set_lock = self.set(key, value, expire, exist=False)`):
+inside a transaction the attempt tests the thread's overlay and the shared store, and WRITES INTO THE
+OVERLAY; `unlock` of such a lock drops the overlay entry. -/
+def stepPrivate (s : LockSt TtlMap) : Act → LockSt TtlMap × LOut
+  | .attempt t =>
+    match s.tasks t, s.tx (s.thr t) with
+    | .trying key ttl wait tok, some c =>
+      if c.overlay.any (·.1 == key) || (ttlOps.owner s.be key).isSome then
+        if wait then (s, .retry) else (setTask s t .failed, .locked)
+      else
+        (setTask (setTx s (s.thr t) (some { c with overlay := (key, tok) :: c.overlay })) t
+          (.inside key tok (deadlineOf s.be.now ttl)), .acquired)
+    | _, _ => step ttlOps s (.attempt t)
+  | .leave t how =>
+    match s.tasks t, s.tx (s.thr t) with
+    | .inside key _ _, some c =>
+      if c.overlay.any (·.1 == key) then
+        (setTask (setTx s (s.thr t) (some { c with overlay := c.overlay.filter (·.1 != key) })) t .done,
+          .released true)
+      else step ttlOps s (.leave t how)
+    | _, _ => step ttlOps s (.leave t how)
+  | a => step ttlOps s a
+
+def runPrivate (s : LockSt TtlMap) : List Act → LockSt TtlMap
+  | [] => s
+  | a :: as => runPrivate (stepPrivate s a).1 as
+
+/-- two threads, each in its own FAST transaction, ask for key 0 -/
+def trTwoTx : List Act :=
+  [.txBegin 0 .fast, .txBegin 1 .fast, .enter 0 0 0 (some 8) true, .attempt 0,
+   .enter 1 1 0 (some 8) false, .attempt 1]
+
+/-- thread 0 in a LOCKED transaction, thread 1 in none -/
+def trTxAndPlain : List Act :=
+  [.txBegin 0 .locked, .enter 0 0 0 (some 8) true, .attempt 0, .enter 1 1 0 (some 8) false, .attempt 1]
+
+/-! ### several backends -/
+
+/-- backends 0 and 1 (100 keys each); key 100 lives on backend 1.  Backend 0 is switched off entirely
+(`cache.disable(prefix=…)`), then two tasks contend for key 100, the second one without waiting. -/
+def trOtherBackendOff : List Act :=
+  [.setHealth 0 ⟨false, false⟩, .enter 0 0 100 (some 8) true, .attempt 0, .enter 1 1 100 (some 8) false,
+   .attempt 1, .enter 2 2 100 (some 8) true, .attempt 2]
+
+/-- the OWNING backend loses its PING (outage, or `Command.PING` disabled) while task 0 is inside -/
+def trOwnerDown : List Act :=
+  [.enter 0 0 100 (some 8) true, .attempt 0, .setHealth 1 ⟨true, false⟩, .enter 1 1 100 (some 8) false,
+   .attempt 1, .leave 1 .normal, .leave 0 .normal]
+
+/-- `Command.SET_LOCK` disabled on the owning backend: no locking at all -/
+def trSetLockOff : List Act :=
+  [.setHealth 1 ⟨false, true⟩, .enter 0 0 100 (some 8) true, .attempt 0, .enter 1 1 100 (some 8) false,
+   .attempt 1, .probe 100, .leave 0 .exc, .leave 1 .normal]
+
+/-- The other seeded defect as a semantics: the probe asks EVERY configured backend (`n` of them) and
+reports "no answer" as soon as one of them is silent. -/
+def stepProbeAll (n : Nat) (s : LockSt TtlMap) : Act → LockSt TtlMap × LOut
+  | .attempt t =>
+    match s.tasks t with
+    | .trying key ttl wait tok =>
+      attemptCore ttlOps s t key ttl wait tok
+        ⟨(s.health (s.route key)).setLock, (List.range n).all fun b => (s.health b).ping⟩
+    | _ => (s, .ignored)
+  | a => step ttlOps s a
+
+def runProbeAll (n : Nat) (s : LockSt TtlMap) : List Act → LockSt TtlMap
+  | [] => s
+  | a :: as => runProbeAll n (stepProbeAll n s a).1 as
 
 end CashewsVerif.Lock
